@@ -40,6 +40,16 @@ def handle (args : List String) : String :=
     | some qs, some cs =>
       "ok " ++ " ".intercalate (qs.map fun b => toString b ++ "=" ++ Proto.showNatList (subclasses cs b))
     | _, _ => "bad-op"
+  | "implementedby" :: qs :: decls =>
+    -- `postprocess implementedby <interface ids> <implementer>:<interface id or N> …`
+    let parseDecl (tok : String) : Option (Nat × Option Nat) :=
+      match tok.splitOn ":" with
+      | [x, i] => do some ((← x.toNat?), (← if i == "N" then some none else i.toNat?.map some))
+      | _ => none
+    match Proto.natList qs, decls.mapM parseDecl with
+    | some qs, some ds =>
+      "ok " ++ " ".intercalate (qs.map fun i => toString i ++ "=" ++ Proto.showNatList (implementedBy ds i))
+    | _, _ => "bad-op"
   | "kinds" :: order :: rest =>
     let ms := rest.takeWhile (· ≠ "|")
     let mros := (rest.dropWhile (· ≠ "|")).drop 1
